@@ -4,11 +4,15 @@ package vlib
 
 import (
 	"bytes"
+	"crypto/ecdsa"
 	"crypto/ed25519"
+	"crypto/elliptic"
 	"crypto/sha256"
+	"crypto/x509"
 	"encoding/base64"
 	"encoding/binary"
 	"fmt"
+	"math/big"
 	"strings"
 	"sync"
 
@@ -21,11 +25,51 @@ const (
 	algCosigV1 = 4
 )
 
-// Key is a deterministic Ed25519 note key.
+// Key is a deterministic note key: Ed25519 (the default) or ECDSA P-256 (the key type of
+// several shipped logs; verified by formats/note.NewECDSAVerifier).
 type Key struct {
 	Name string
 	Priv ed25519.PrivateKey
 	Pub  ed25519.PublicKey
+	EC   *ecdsa.PrivateKey // non-nil: this is an ECDSA key
+	ecDER []byte
+}
+
+// zeroReader makes ecdsa.SignASN1 deterministic (its nonce is derived from the key, the
+// digest and this "entropy").
+type zeroReader struct{}
+
+func (zeroReader) Read(p []byte) (int, error) {
+	for i := range p {
+		p[i] = 0
+	}
+	return len(p), nil
+}
+
+// NewECDSAKey derives an ECDSA P-256 note key for (name, label) deterministically.
+func NewECDSAKey(name, label string) *Key {
+	keyMu.Lock()
+	defer keyMu.Unlock()
+	id := name + "\x00ecdsa\x00" + label
+	if k, ok := keyTab[id]; ok {
+		return k
+	}
+	seed := sha256.Sum256([]byte("verif ecdsa key seed " + label))
+	curve := elliptic.P256()
+	d := new(big.Int).SetBytes(seed[:])
+	n1 := new(big.Int).Sub(curve.Params().N, big.NewInt(1))
+	d.Mod(d, n1)
+	d.Add(d, big.NewInt(1))
+	priv := &ecdsa.PrivateKey{D: d}
+	priv.PublicKey.Curve = curve
+	priv.PublicKey.X, priv.PublicKey.Y = curve.ScalarBaseMult(d.Bytes())
+	der, err := x509.MarshalPKIXPublicKey(&priv.PublicKey)
+	if err != nil {
+		panic(err)
+	}
+	k := &Key{Name: name, EC: priv, ecDER: der}
+	keyTab[id] = k
+	return k
 }
 
 var (
@@ -50,7 +94,18 @@ func NewKey(name, label string) *Key {
 
 // Renamed returns the same key material under another name.
 func (k *Key) Renamed(name string) *Key {
-	return &Key{Name: name, Priv: k.Priv, Pub: k.Pub}
+	return &Key{Name: name, Priv: k.Priv, Pub: k.Pub, EC: k.EC, ecDER: k.ecDER}
+}
+
+// SameMaterial reports whether two keys are the same key (whatever their names).
+func (k *Key) SameMaterial(o *Key) bool {
+	if (k.EC == nil) != (o.EC == nil) {
+		return false
+	}
+	if k.EC != nil {
+		return bytes.Equal(k.ecDER, o.ecDER)
+	}
+	return bytes.Equal(k.Pub, o.Pub)
 }
 
 func keyHash(name string, alg byte, pub []byte) uint32 {
@@ -62,14 +117,23 @@ func keyHash(name string, alg byte, pub []byte) uint32 {
 	return binary.BigEndian.Uint32(h.Sum(nil)[:4])
 }
 
-// Hash is the plain-Ed25519 key hash.
-func (k *Key) Hash() uint32 { return keyHash(k.Name, algEd25519, k.Pub) }
+// Hash is the key hash under which the key's plain signature lines appear.
+func (k *Key) Hash() uint32 {
+	if k.EC != nil {
+		h := sha256.Sum256(k.ecDER)
+		return binary.BigEndian.Uint32(h[:4])
+	}
+	return keyHash(k.Name, algEd25519, k.Pub)
+}
 
 // CosigHash is the cosignature/v1 key hash.
 func (k *Key) CosigHash() uint32 { return keyHash(k.Name, algCosigV1, k.Pub) }
 
 // VKey is the note verifier key string.
 func (k *Key) VKey() string {
+	if k.EC != nil {
+		return fmt.Sprintf("%s+%08x+%s", k.Name, k.Hash(), base64.StdEncoding.EncodeToString(append([]byte{2}, k.ecDER...)))
+	}
 	return fmt.Sprintf("%s+%08x+%s", k.Name, k.Hash(), base64.StdEncoding.EncodeToString(append([]byte{algEd25519}, k.Pub...)))
 }
 
@@ -78,9 +142,10 @@ func (k *Key) SKey() string {
 	return fmt.Sprintf("PRIVATE+KEY+%s+%08x+%s", k.Name, k.Hash(), base64.StdEncoding.EncodeToString(append([]byte{algEd25519}, k.Priv.Seed()...)))
 }
 
-// Verifier is the library verifier for this key (plain Ed25519).
+// Verifier is the library verifier for this key, obtained the way the witness
+// configuration obtains it (formats/note.NewVerifier dispatches on the key type).
 func (k *Key) Verifier() note.Verifier {
-	v, err := note.NewVerifier(k.VKey())
+	v, err := f_note.NewVerifier(k.VKey())
 	if err != nil {
 		panic(err)
 	}
@@ -105,8 +170,16 @@ func (k *Key) CosigSigner() *f_note.Signer {
 	return s
 }
 
-// SigLine builds a plain Ed25519 signature line over text with the harness's own code.
+// SigLine builds a plain signature line over text with the harness's own code.
 func (k *Key) SigLine(text string) string {
+	if k.EC != nil {
+		d := sha256.Sum256([]byte(text))
+		sig, err := ecdsa.SignASN1(zeroReader{}, k.EC, d[:])
+		if err != nil {
+			panic(err)
+		}
+		return RawSigLine(k.Name, k.Hash(), sig)
+	}
 	sig := ed25519.Sign(k.Priv, []byte(text))
 	var hb [4]byte
 	binary.BigEndian.PutUint32(hb[:], k.Hash())
@@ -195,8 +268,12 @@ func SplitNote(msg []byte) (text string, sigs []SigEntry, ok bool) {
 	return text, sigs, true
 }
 
-// VerifyPlain checks a plain Ed25519 signature entry under k with the harness's code.
+// VerifyPlain checks a plain signature entry under k with the harness's code.
 func (k *Key) VerifyPlain(text string, s SigEntry) bool {
+	if k.EC != nil {
+		d := sha256.Sum256([]byte(text))
+		return s.Name == k.Name && s.Hash == k.Hash() && ecdsa.VerifyASN1(&k.EC.PublicKey, d[:], s.Sig)
+	}
 	return s.Name == k.Name && s.Hash == k.Hash() && len(s.Sig) == ed25519.SignatureSize && ed25519.Verify(k.Pub, []byte(text), s.Sig)
 }
 
